@@ -23,6 +23,11 @@ fn calculate_view_dimensions<T>(start: Coordinate, end: Coordinate, toodee: &imp
         num_cols = 0;
         num_rows = 0;
     }
+    if num_rows == 0 {
+        // An empty view has no data. Its nominal start offset can lie beyond the end of the
+        // parent's slice (e.g. `start == end == (num_cols, num_rows)`), so don't use it.
+        return (0, 0, 0..0);
+    }
     let data_start = start.1 * stride + start.0;
     let data_len = {
         if num_rows == 0 {
